@@ -486,3 +486,9 @@ Example flatten_example :
   /\ fl_check (Some [None; None; None]) 2 None = None /\ fl_check None 1 None = Some [0; -1] /\ fl_check None (-1) None = None
   /\ resolve false [5; 3; 4] [0; 12] = Some (flatten 1 [5; 3; 4]).
 Proof. repeat split; reflexivity. Qed.
+
+Example mat_example :
+  mat_check false (Some [Some 2; None; Some 3]) = Some [2; -1; 3] /\ mat_ok [Some 2; None; Some 3] = true
+  /\ resolve true [4; 6] [2; -1; 3] = Some [2; 4; 3] /\ mat_check false (Some [None; None]) = None
+  /\ mat_check true (Some [Some 2]) = None /\ mat_ok [Some 0; None] = false /\ mat_ok [Some 0; Some 3] = true.
+Proof. repeat split; reflexivity. Qed.
